@@ -139,6 +139,7 @@ type Ctx struct {
 	stop     bool
 	aff      int
 	useAff   bool
+	ncases   int
 }
 
 // Affinity makes subsequent cases be assigned to shards by i instead of by the
@@ -261,7 +262,8 @@ func (c *Ctx) Case(key string, fn func(t *T)) {
 			c.res.Violations = append(c.res.Violations, v)
 		}
 	}
-	if len(c.res.Samples) < 4 && (c.res.Evaluations%97 == 1) {
+	c.ncases++
+	if len(c.res.Samples) < 4 && (c.ncases%97 == 1 || (t.sample != nil && t.extra > 1)) {
 		s := t.sample
 		if s == nil {
 			s = map[string]interface{}{"case": key, "outcome": t.outcome}
